@@ -7,7 +7,7 @@
    first error ends everything, completion comes with the last running
    source's completion, notifications of terminated sources are ignored. *)
 From RxVerif Require Import Base.Prelude Ops.Machine Ops.Multi Ops.MultiFacts Ops.RunLemmas
-  Ops.Combinators Ops.MergeFacts.
+  Ops.Combinators Ops.MergeFacts Ops.FlatMapFacts.
 
 Theorem C11_merge_refines_spec : forall A n (ins : list (Z * inp A)),
   temitted (fst (run (x_merge n) ins))
@@ -30,6 +30,21 @@ Theorem C11_merge_completes_after_all : forall A (ins : list (Z * inp A)) runnin
   exists q now, (q <= p - pos)%nat /\ nth_error ins q = Some (now, ISrc k Done).
 Proof. exact @merge_spec_complete. Qed.
 Print Assumptions C11_merge_completes_after_all.
+
+(* flat_map / flat_map_indexed / merge_all (inner sequences created by the outer
+   source's elements): refinement for EVERY mapper -- also raising -- and EVERY
+   input sequence *)
+Theorem C11_flat_map_refines_spec : forall A (mapper : A -> nat -> res unit) (ins : list (Z * inp A)),
+  temitted (fst (run (x_flat_map mapper) ins)) = flat_map_spec mapper true 0 [] 1 ins.
+Proof. exact @flat_map_refines_spec. Qed.
+Print Assumptions C11_flat_map_refines_spec.
+
+Example C11_witness_flat_map :
+  temitted (fst (run (x_flat_map (fun _ _ => Ok tt))
+     [(0, ISrc 0%nat (Next 1)); (0, ISrc 1%nat (Next 10)); (0, ISrc 0%nat (Next 2)); (0, ISrc 2%nat (Next 20));
+      (0, ISrc 1%nat (Next 11)); (0, ISrc 0%nat Done); (0, ISrc 1%nat Done); (0, ISrc 2%nat Done)]))
+  = [(2%nat, Next 10); (4%nat, Next 20); (5%nat, Next 11); (8%nat, Done)].
+Proof. vm_compute. reflexivity. Qed.
 
 Example C11_witness :
   temitted (fst (run (x_merge 2)
